@@ -60,10 +60,18 @@ class _Tr:
         return False
 
 
+class _NoParser:
+    def pause_reading(self):
+        pass
+
+
 class _Proto(BaseProtocol):
     def __init__(self, loop):
-        super().__init__(loop)
+        super().__init__(loop, parser=_NoParser())       # everything is fed at once: pausing has nothing to hold back
         self.transport = _Tr()      # "connected"
+
+    def data_received(self, data):
+        pass
 
 
 CONTENT = {
@@ -84,6 +92,7 @@ CONTENT = {
     "8194": (b"0123456789abcdef" * 513)[:8194],
     "16384+1": b"z" * 16385,
     "boundary-at-chunk-edge": b"y" * (8192 - 4) + b"\r\n--" + B.encode()[:2] + b"tail",
+    "300000": b"compressible " * 23077,          # decodes to more than one 256 KiB decompression step
 }
 TEXTS = {"text": "héllo wörld\r\nsecond line", "text-long": "é" * 3000}
 ENC = [None, "base64", "quoted-printable", "binary"]
@@ -356,6 +365,8 @@ def _job_roundtrip(job):
                 plain = all(not w.get("enc") and not w.get("cenc") for w in want if "nested" not in w)
                 if api == "line" and not plain:
                     continue
+                if api in ("line", "line1") and any(len(w.get("content") or b"") > 100000 and b"\n" not in w["content"] for w in want if "nested" not in w):
+                    continue        # one line longer than the reader's line limit: refusing it is the configured behaviour
                 for cuts in (cuts_for(body) if api in ("read", "line") or chunk == 64 else [(), tuple(range(1, len(body)))] if len(body) <= 400 else [()]):
                     got = run_reader(loop, ctype, body, cuts, api, chunk or 8192)
                     part.count("executions")
